@@ -180,3 +180,97 @@ def timestamp_spec(now_rounded):
 def set_length_spec(message):
     """header bytes 2-3 := little-endian 16-bit total length of the signed frame (message + 4 signature bytes)"""
     return "fef0" + hexs(le16(len(message) // 2 + 4)) + message[8:]
+
+
+# ------------------------------------------------------------------------------------- C12
+# "Monday 0x02 ... Sunday 0x80": the bit of a weekday, keyed by the Enum member's name
+DAY_BIT = {"MONDAY": 0x02, "TUESDAY": 0x04, "WEDNESDAY": 0x08, "THURSDAY": 0x10, "FRIDAY": 0x20, "SATURDAY": 0x40,
+           "SUNDAY": 0x80}
+
+
+@primitive
+def day_bit(d):
+    return DAY_BIT[d.name]
+
+
+@primitive
+def is_member(x, cls):
+    return isinstance(x, cls)
+
+
+@primitive
+def pairwise_distinct(items):
+    items = list(items)
+    return all(items[i] is not items[j] for i in range(len(items)) for j in range(i))
+
+
+def hex2(v):
+    """two lower-case hex digits of 0 <= v <= 255"""
+    return "0123456789abcdef"[v // 16] + "0123456789abcdef"[v % 16]
+
+
+def weekdays_encode_spec(days, days_cls):
+    """a single day, a non-empty set, or a non-empty duplicate-free sequence -> two hex digits with exactly those
+    days' bits; empty or duplicate-bearing input is rejected"""
+    if is_member(days, days_cls):
+        return hex2(day_bit(days))
+    if len(days) == 0 or not pairwise_distinct(days):
+        raise Reject("ValueError")
+    total = 0
+    for d in days:
+        total = total + day_bit(d)
+    return hex2(total)
+
+
+def weekdays_decode_spec(mask, days_cls):
+    """masks 2..254 -> exactly the days whose bit is set; anything else is rejected"""
+    if mask < 2 or mask > 254:
+        raise Reject("ValueError")
+    out = set()
+    for d in days_cls:
+        if (mask // day_bit(d)) % 2 == 1:
+            out.add(d)
+    return out
+
+
+# ------------------------------------------------------------------------------------- C14 / C13
+def td_text(sec):
+    """H:MM:SS of 0 <= sec < 86400 (hours without zero padding, as a duration is printed)"""
+    return str(sec // 3600) + ":" + two((sec // 60) % 60) + ":" + two(sec % 60)
+
+
+def minute_of(t):
+    return hh_of(t) * 60 + mm_of(t)
+
+
+def duration_spec(start, end):
+    """(end - start) modulo 24 hours, formatted H:MM:SS"""
+    return td_text(60 * ((minute_of(end) - minute_of(start)) % 1440))
+
+
+DAY_INDEX = {"MONDAY": 0, "TUESDAY": 1, "WEDNESDAY": 2, "THURSDAY": 3, "FRIDAY": 4, "SATURDAY": 5, "SUNDAY": 6}
+DAY_TITLE = {"MONDAY": "Monday", "TUESDAY": "Tuesday", "WEDNESDAY": "Wednesday", "THURSDAY": "Thursday",
+             "FRIDAY": "Friday", "SATURDAY": "Saturday", "SUNDAY": "Sunday"}
+
+
+def next_run_spec(start, days, now_weekday, now_minute):
+    """the earliest future occurrence.  now_weekday: local weekday (Monday = 0); now_minute: local minute of the day.
+    delta(d) = days until the next occurrence on weekday d: 0 if d is today and the start is still ahead,
+    7 if d is today and it is not, otherwise (d - today) mod 7."""
+    if len(days) == 0:
+        return "Due today at " + start
+    s = minute_of(start)
+    best = None
+    best_delta = 8
+    for d in days:
+        delta = (DAY_INDEX[d.name] - now_weekday) % 7
+        if delta == 0 and not (now_minute < s):
+            delta = 7
+        if delta < best_delta:
+            best = d
+            best_delta = delta
+    if best_delta == 0:
+        return "Due today at " + start
+    if best_delta == 1:
+        return "Due tomorrow at " + start
+    return "Due next " + DAY_TITLE[best.name] + " at " + start
